@@ -244,7 +244,7 @@ def run(ctx):
                         "touch set of the context alphabet on either side, %d mutator step(s), 2 recyclings, all interleavings" % (2 if q else 3))
     lib.spec_check(ctx, "CtxCopyKeys", "CtxCopyKeys_mc.cfg" if q else "CtxCopyKeys_mc_thorough.cfg", workers=4 if q else 8, timeout=1500,
                    note="Set(a,n);Set(b,n) by one writer against readers doing Get / snapshot (ForEachKey, Copy) under the RWMutex")
-    negs = [("CtxCopy", "CtxCopy_asis.cfg", ["Complete"], "Request.CopyTo as written: the form of a multipart request parsed while read is lost (known finding)"),
+    negs = [("CtxCopy", "CtxCopy_asis.cfg", ["Complete"], "Request.CopyTo as written: the form of a multipart request parsed while read is lost (the defect repaired by 42af873; kept as a negative configuration)"),
             ("CtxCopy", "CtxCopy_neg_shallowParams.cfg", ["IndependentCopy", "IndependentOrig", "NoNextInCopy"], "Params not copied: the copy shares the slice the router refills"),
             ("CtxCopy", "CtxCopy_neg_aliasKeys.cfg", ["IndependentCopy", "IndependentOrig", "NoNextInCopy"], "cp.Keys = ctx.Keys: one map for both"),
             ("CtxCopy", "CtxCopy_neg_omitFullPath.cfg", ["Complete"], "fullPath not copied"),
